@@ -9,7 +9,8 @@ NUM = 3
 LEVEL = "exploration"
 RULE = ("random runs over the option space (noise, averaging, scaling, regulariser, projections, soft/hard restarts, growing, "
         "regression) plus, per reference run, the budget-index (maxfun = 1..nf_ref) and exit-index (model.abs_tol placed at every "
-        "running-minimum call) enumerations, exit-at-x0 cases and one-shot NaN faults. Oracle at end of run AND at every iteration "
+        "running-minimum call) enumerations, exit-at-x0 cases, one-shot NaN faults and the failpoint enumeration (LinAlgError in the "
+        "Lagrange solve / 'model increases' verdict in the acceptance test at calls spread over a reference run). Oracle at end of run AND at every iteration "
         "(hook on the once-per-iteration model fit) for the incumbent and the saved slot: named point exists in the history, x "
         "matches the recorded x, residual is bit-identical to the recorded vector (mean of samples under averaging), "
         "obj == sum(resid^2)+h(x). Non-trivial/distinct = (exit site, restart mode, averaging?) triples x configuration hash "
@@ -22,6 +23,7 @@ NRAND = {"quick": 700, "thorough": 16000}
 NX0 = {"quick": 120, "thorough": 1500}
 NFAULT = {"quick": 120, "thorough": 2500}
 NREGGROW = {"quick": 120, "thorough": 2500}
+NFAILPT = {"quick": 50, "thorough": 900}
 CASE_TIMEOUT = {"quick": 300, "thorough": 900}
 NSAMPLES = 5
 MIN_TRIPLES = {"quick": 25, "thorough": 40}
@@ -30,7 +32,8 @@ MIN_TRIPLES = {"quick": 25, "thorough": 40}
 def cases(tier, seed):
     out = []
     i = 0
-    for t, n in (("enum", NENUM[tier]), ("rand", NRAND[tier]), ("x0exit", NX0[tier]), ("fault", NFAULT[tier]), ("reggrow", NREGGROW[tier])):
+    for t, n in (("enum", NENUM[tier]), ("rand", NRAND[tier]), ("x0exit", NX0[tier]), ("fault", NFAULT[tier]), ("reggrow", NREGGROW[tier]),
+                 ("failpt", NFAILPT[tier])):
         for _ in range(n):
             out.append(dict(i=i, seed=seed, type=t))
             i += 1
@@ -40,6 +43,7 @@ def cases(tier, seed):
 def setup():
     engine.install_core_monitors()
     engine.install_log_tap()
+    engine.install_failpoints()
 
 
 def make_cfg(seed, i, typ):
@@ -57,6 +61,12 @@ def make_cfg(seed, i, typ):
         else:
             cfg["args"]["maxfun"] = int(rng.integers(1, 4))
             cfg["nsamples"] = dict(kind="const", v=int(rng.integers(2, 6)))
+    elif typ == "failpt":
+        # reference run for the failpoint enumeration (see campaign.failpoint_cfgs): restart-heavy, with averaging and noise
+        cfg = campaign.gen_cfg(rng, restarts_p=0.85, term_p=0.0, reg_p=0.08, proj_p=0.0, maxfuns=(30, 50, 80), nmax=3, npt_p=0.5,
+                               allow=("restarts", "regression", "growing"), averaging_p=0.3, noise_p=0.3)
+        if cfg.get("reg"):
+            cfg["args"]["maxfun"] = min(cfg["args"]["maxfun"], 25)
     elif typ == "reggrow":
         # regulariser + bounds + growing / random-direction options: stored raw points can lie outside the box while the objective
         # is evaluated at the clipped point (found by the C17 in-situ slot check: h was added at the raw point)
@@ -168,9 +178,7 @@ def one_run(cfg, res, tag):
     built = gen.build(cfg, ctx)
     state["b"] = built
     ctx.iter_hook = make_hook(state)
-    run = engine.run_solve(built.objfun, built.x0.copy(), ctx=ctx, timeout=60, faults=built.faults,
-                           persistent=built.persistent, solve_kwargs=built.kw)
-    run.built, run.cfg = built, cfg
+    run = gen.run_cfg(cfg, ctx, timeout=60, built=built)
     oracles.common_stats(run, st)
     viol = state["viol"]
     if run.exc is None:
@@ -207,6 +215,12 @@ def run_case(case):
             one_run(c2, res, "%s %s" % (c2["_derived"]["kind"], c2["_derived"].get("M", c2["_derived"].get("j"))))
             nder += 1
             res["stats"]["derived|" + c2["_derived"]["kind"]] = res["stats"].get("derived|" + c2["_derived"]["kind"], 0) + 1
+    if typ == "failpt" and ref.exc is None:
+        for c2 in campaign.failpoint_cfgs(cfg, ref, max_lagrange=7, max_ratio=7):
+            r2 = one_run(c2, res, "%s %d of %d" % (c2["_derived"]["kind"], c2["_derived"]["j"], c2["_derived"]["of"]))
+            nder += 1
+            k = "derived|" + c2["_derived"]["kind"]
+            res["stats"][k] = res["stats"].get(k, 0) + 1
     if case["i"] % 60 == 0:
         s = ref.soln
         res["sample"] = dict(case=case["i"], type=typ, prob=cfg["prob"], args=cfg["args"], user_params=cfg["user_params"],
